@@ -7,7 +7,7 @@ counter  n         n <= P  (P+1 for the `n > P` form)   every write is 0 | n | n
 """
 import fieldclass
 import symex
-from terms import cu, is_const, leaves, lit, show, subterms
+from terms import cu, is_const, leaves, lit, mk_gamma, show, subterms
 
 
 class StructTS:
@@ -146,6 +146,8 @@ def _is_wrap(t, c, pf):
     inc = ("+", pc, cu(1))
     if t == ("%", inc, pp):
         return True  # (c + 1) % period: the other wrap idiom
+    if isinstance(t, tuple) and t[0] == "%" and t[1] == inc and isinstance(t[2], tuple) and t[2][0] == "len" and isinstance(t[2][1], tuple) and t[2][1][0] == "pre":
+        return True  # (c + 1) % deque.len(): len = period by the buffer invariant
     if not (isinstance(t, tuple) and t[0] == "gamma"):
         return False
     a, pol = lit(("<", inc, pp))
@@ -160,8 +162,13 @@ def _is_wrap(t, c, pf):
 def _is_satinc(t, n, pf):
     pn, pp = ("pre", "self." + n), ("pre", "self." + pf)
     inc = ("+", pn, cu(1))
+    if isinstance(t, tuple) and t[0] == "min" and set(t[1:]) == {inc, pp}:
+        return True  # (n + 1).min(period)
     if not (isinstance(t, tuple) and t[0] == "gamma"):
         return False
+    a, pol = lit(("==", pn, pp))  # `n != period` / `n == period` under the invariant n <= period
+    if t[1] == a:
+        return (t[2], t[3]) == ((pn, inc) if pol else (inc, pn))
     for cond, when_true in ((("<", pn, pp), True), (("<=", pp, pn), False)):
         a, pol = lit(cond)
         if t[1] == a:
@@ -193,6 +200,9 @@ def _try_cursor(ts, x, posts, P, usize_state):
             if leaf[0] == "%" and leaf[2][0] == "pre" and leaf[2][1].split(".")[-1] in P:
                 pf_used = leaf[2][1].split(".")[-1]
                 continue
+            if leaf[0] == "%" and leaf[2][0] == "len" and isinstance(leaf[2][1], tuple) and leaf[2][1][0] == "pre" and leaf[2][1][1].split(".")[-1] in ts.buffers and P:
+                pf_used = P[0]  # modulus = the buffer's own length (= period by the buffer invariant)
+                continue
             if leaf[0] == "pre" and leaf[1].startswith("self.") and leaf[1].split(".", 1)[1] in usize_state:
                 continue  # checked afterwards: must itself be a cursor
             if leaf[0] == "ucall" and leaf[1] in ts.index_fns:
@@ -218,6 +228,8 @@ def _try_counter(ts, x, posts, P):
                     pp = ("pre", "self." + pf)
                     if has_fact(conds, ("<", px, pp)):
                         ok, b = True, "P"
+                    elif has_fact(conds, ("==", px, pp), want=False):
+                        ok, b = True, "P"  # n != period: with n <= period (inductive hypothesis) this is n < period
                     elif has_fact(conds, ("<=", pp, px), want=False):
                         ok, b = True, "P"
                     elif has_fact(conds, ("<", pp, px), want=False) or has_fact(conds, ("<=", px, pp)):
@@ -230,6 +242,10 @@ def _try_counter(ts, x, posts, P):
                 if ok:
                     continue
                 return False, "%s: `%s + 1` stored without a guard against the period" % (lab, x)
+            if leaf[0] == "min" and any(set(leaf[1:]) == {inc, ("pre", "self." + pf)} for pf in P):
+                pf_used = [pf for pf in P if ("pre", "self." + pf) in leaf[1:]][0]
+                bound = "P" if bound in (None, "P") else "P+1"
+                continue  # (n + 1).min(period)
             return False, "%s stores %s" % (lab, show(leaf)[:60])
     if bound is None:
         return False, "never incremented"
@@ -247,22 +263,50 @@ def all_structs(F):
     return _cache[k]
 
 
-def canon_wrap(F, struct, t):
-    """rewrite the modulo idiom of a cursor step, `(c + 1) % period`, into the comparison idiom `if c + 1 < period { c + 1 } else { 0 }`.
-    Sound under the cursor invariant c < period = len >= 1 (then c + 1 <= period, and the remainder is 0 exactly when c + 1 == period)."""
-    from terms import mk_gamma
+def canon_state(F, struct, t):
+    """Rewrite the equivalent spellings of a ring's bookkeeping into one form, using the typestate invariants of `struct`
+    (len(buffer) = period >= 1, cursor < period, counter <= period):
+        buffer.len()                         -> period
+        (c + 1) % period                     -> if c + 1 < period { c + 1 } else { 0 }
+        (n + 1).min(period)                  -> if n < period { n + 1 } else { n }
+        n == period  (as a branch condition) -> !(n < period)
+    Each is an identity under those invariants, which the classification establishes by induction over all methods."""
     ts = all_structs(F)[0].get(struct)
-    if ts is None or not ts.cursors:
+    if ts is None or not isinstance(t, tuple):
         return t
+    P = list(ts.len_fields)
+    if not P:
+        return t
+    pp = ("pre", "self." + P[0])
+    bufs = {("pre", "self." + b) for b in ts.buffers}
+    curs = {("pre", "self." + c) for c in ts.cursors}
+    cnts = {("pre", "self." + n) for n, (pf, bd) in ts.counters.items() if bd == "P"}
+    memo = {}
 
     def go(x):
-        if not isinstance(x, tuple):
+        if not isinstance(x, tuple) or not x:
             return x
-        if x and x[0] == "%" and isinstance(x[1], tuple) and x[1][0] == "+" and x[1][2] == cu(1) and isinstance(x[1][1], tuple) and x[1][1][0] == "pre" \
-                and isinstance(x[2], tuple) and x[2][0] == "pre":
-            c = x[1][1][1].split(".", 1)[1] if x[1][1][1].startswith("self.") else None
-            pf = x[2][1].split(".", 1)[1] if x[2][1].startswith("self.") else None
-            if c in ts.cursors and pf in ts.len_fields:
-                return mk_gamma(("<", x[1], x[2]), x[1], cu(0))
-        return tuple(go(y) for y in x)
+        if x in memo:
+            return memo[x]
+        y = tuple(go(z) for z in x)
+        if y[0] == "len" and len(y) == 2 and y[1] in bufs:
+            y = pp
+        elif y[0] == "%" and len(y) == 3 and isinstance(y[1], tuple) and y[1][0] == "+" and y[1][2] == cu(1) and y[1][1] in curs and y[2] == pp:
+            y = mk_gamma(("<", y[1], pp), y[1], cu(0))
+        elif y[0] == "min" and len(y) == 3 and pp in y[1:]:
+            o = y[1] if y[2] == pp else y[2]
+            if isinstance(o, tuple) and o[0] == "+" and o[2] == cu(1) and o[1] in cnts:
+                y = mk_gamma(("<", o[1], pp), o, o[1])
+        elif y[0] == "gamma":
+            a, pol = lit(y[1])
+            if a[0] == "==" and pp in a[1:] and any(v in cnts for v in a[1:]):
+                n = a[1] if a[2] == pp else a[2]
+                # atom true (n == period): arm taken is y[2] if pol else y[3]
+                eq_arm, ne_arm = (y[2], y[3]) if pol else (y[3], y[2])
+                y = mk_gamma(("<", n, pp), ne_arm, eq_arm)
+        memo[x] = y
+        return y
     return go(t)
+
+
+canon_wrap = canon_state
